@@ -512,7 +512,7 @@ def gen_correlation(rng: Random, title: str, refs: list[str], *, rid: str | None
         corr["group-by"] = rng.sample(["User", "src_ip", "Image"], rng.randint(1, 2))
     if generate is not None:
         corr["generate"] = generate
-    cond: dict[str, Any] = {pick(rng, ["gte", "gt", "lt", "lte", "eq", "neq"]): rng.randint(1, 10)}
+    cond: dict[str, Any] = {pick(rng, ["gte", "gte", "gt", "lt", "lte", "eq", "neq"]): pick(rng, [1, 1, 1, 2, 3, 5, 10])}
     if ctype in ("value_count", "value_sum", "value_avg", "value_median", "value_percentile"):
         cond["field"] = pick(rng, FIELDS)
     if ctype == "value_percentile":
